@@ -143,11 +143,14 @@ func TestVerifC04(t *testing.T) {
 			return []routing.RulesOptimizer{&routing.AliasOptimizer{}, dat(), &routing.MergeAndSortRulesOptimizer{}, &routing.DeduplicateParamsOptimizer{}}
 		}},
 	}
-	gen := &vk.RGen{R: r, Groups: verifGroups, NeighbourBias: 0.6, V6Slash0: true, GeoRefs: true, MaxRules: 10, BadKeyword: true}
+	gen := &vk.RGen{R: r, Groups: verifGroups, NeighbourBias: 0.6, V6Slash0: true, GeoRefs: true, MaxRules: 10, BadKeyword: true, SharedPrefix: true}
 	nprog := vk.Scale(1500, 40000)
 	npkt := vk.Scale(80, 120)
 	for i := 0; i < nprog && m.Violations() < 5; i++ {
 		p := gen.Gen()
+		if p.SharedPrefixTwin {
+			m.Count("programs_with_two_conditions_sharing_their_first_written_values", 1)
+		}
 		pkts := vk.ProbePackets(p, r, npkt)
 		rules, fb, err := verifParseRouting(p.Text())
 		if err != nil {
@@ -262,7 +265,7 @@ func TestVerifC04(t *testing.T) {
 			m.Sample(map[string]any{"written": p.Text(), "optimised_production": verifRulesText(opt), "changed_by": changed})
 		}
 	}
-	m.Require("changed_by_A", "changed_by_D", "changed_by_M", "changed_by_U", "rules_merged", "empty_expansion_rejected", "bad_keyword_program_builds")
+	m.Require("changed_by_A", "changed_by_D", "changed_by_M", "changed_by_U", "rules_merged", "empty_expansion_rejected", "bad_keyword_program_builds", "programs_with_two_conditions_sharing_their_first_written_values")
 	verifC04DnsPipelines(m, r)
 	m.Done(t)
 }
